@@ -45,9 +45,24 @@ val first_or_self : node -> node
 
 val parse_html_text : string -> node -> st -> node * st
 
+val array_form :
+  bool -> node option -> str list -> node list -> (node * node option) * str
+  list option
+
+val vmodel_attr_value : node -> st -> node * st
+
+val vmodel_first_check : node -> st -> st
+
+val vmodel_parts :
+  node -> bool -> node option -> str list -> (node * node option) * str list
+  option
+
 val parse_v_model :
   node -> bool -> node option -> str list -> st -> directive * st
 
 val parse_v_slots : node -> directive
+
+val normal_parts :
+  node -> node option -> str list -> (node * node option) * str list option
 
 val parse_directive : node -> node -> bool -> st -> directive * st
